@@ -169,7 +169,11 @@ class Model:
         if not os.environ.get('MIROS_VERIF_NO_INLINE'):
             from .normalise import inline_fresh_helpers, specialise_fresh_factories, nest_lifted_closures, split_conditional_expressions
             split_conditional_expressions(self.modules)
+            from .normalise import strip_diagnostics
+            nd = strip_diagnostics(self.modules)
             self.inlined = specialise_fresh_factories(self.modules) + nest_lifted_closures(self.modules) + inline_fresh_helpers(self.modules)
+            if nd:
+                self.inlined.append(('<package>', [], '%d logging statements with effect-free arguments dropped' % nd))
             split_conditional_expressions(self.modules)
         for m in self.modules.values():
             self._index_module(m)
